@@ -30,6 +30,7 @@ func TestMain(m *testing.M) {
 func options() tgen.Options {
 	o := tgen.DefaultOptions
 	o.ScriptExprs = true
+	o.BigLiterals = true // static runs beyond 64 KiB: one very long line in the development text file
 	return o
 }
 
@@ -244,6 +245,7 @@ const KnownBlindToShape = "c16-same-options-literal-count-and-expressions-but-di
 
 func TestPropEdits(t *testing.T) {
 	o := options()
+	o.BigLiterals = false
 	o.MaxTemplates = 1
 	o.Extras = false
 	g := tgen.GenFile(o)
